@@ -15,6 +15,7 @@ inductive EnvOp where
   | hypEnroll (id : Bytes) (domain gas : Nat)
   | hypUnroll (id : Bytes) (domain : Nat)
   | hypHook (h : Hook)
+  | sendEnabled (denom : String) (b : Bool)
   deriving Repr, DecidableEq, Inhabited
 
 def envStep (e : ExtState) : EnvOp → ExtState
@@ -27,6 +28,7 @@ def envStep (e : ExtState) : EnvOp → ExtState
   | .hypToken id d => { e with hypTokens := e.hypTokens ++ [(id, d)] }
   | .hypEnroll id dom gas => { e with hypRouters := (e.hypRouters.filter fun r => !(internalId r.1 == internalId id && r.2.1 == dom)) ++ [(id, dom, gas)] }
   | .hypUnroll id dom => { e with hypRouters := e.hypRouters.filter fun r => !(internalId r.1 == internalId id && r.2.1 == dom) }
+  | .sendEnabled d b => { e with sendDisabled := fun x => if x = d then !b else e.sendDisabled x }
   | .hypHook .noop => { e with hypHook := .noop }
   | .hypHook h => { e with hypHook := h, hypIgps := e.hypIgps ++ [h] }
 
